@@ -7,6 +7,7 @@ prediction of the result files and of the final listing is compared with what th
 Separately the model's operation list itself is validated: against the sequence of mutating file
 operations of the real run, and, for every kill point k, against the directory a killed run leaves."""
 import builtins
+import itertools
 import os
 import shutil
 import subprocess
@@ -25,7 +26,8 @@ RULE = ("case kinds: dirty = 1-3 earlier runs (other tables, chunk sizes, prefix
         "followed by the observed assign_confidence run, compared with the model's prediction from the parsed dirty directory "
         "(result rows with q-values, final listing, operation trace) and with the same run in a clean directory; crash = one run "
         "killed before operation k for every k, directory compared with the model's exec_crash k; verify = the CLI's PIN verify step "
-        "with / without a pre-existing <pin>.tsv; strace = system-call trace of a real subprocess run against the Python-level tap. "
+        "with / without a pre-existing <pin>.tsv (PINs of 1-6 PSMs, and PINs without PSMs: header only / header + DefaultDirection "
+        "line); strace = system-call trace of a real subprocess run against the Python-level tap. "
         "distinct = distinct case; non-trivial = the dirty directory holds a file whose name the observed run also uses or globs")
 ASSUMPTIONS = [
     "file operations are atomic at the granularity of one create / append / unlink / rename call (torn appends are covered by the theorem's quantification over all directories, not by the correspondence runs)",
@@ -370,6 +372,18 @@ def gen(ctx):
         cases.append({"fn": "verify", "pin": txt, "leftover": left,
                       "tags": ["verify", "ragged" if ragged else "rectangular", "dd" if dd else "nodd",
                                "leftover" if left is not None else "no-leftover"]})
+    # PINs without any PSM (valid / converted to the header since /repo acb0557): header only is left alone (a leftover
+    # <pin>.tsv stays), header + DefaultDirection line is replaced by the header line; the same in both tiers
+    for nfeat, dd, fnl in itertools.product((0, 2), (False, True), (True, False)):
+        header = ["SpecId", "Label", "ScanNr"] + ["f%d" % i for i in range(nfeat)] + ["Peptide", "Proteins"]
+        lines = ["\t".join(header)]
+        if dd:
+            lines.append("\t".join(["DefaultDirection", "-", "-"] + ["1"] * nfeat + ["-", "-"]))
+        txt = "\n".join(lines) + ("\n" if fnl else "")
+        for left in (None, "LEFTOVER\tJUNK\n", ""):
+            cases.append({"fn": "verify", "pin": txt, "leftover": left,
+                          "tags": ["verify", "zero-psm", "rectangular", "dd" if dd else "nodd",
+                                   "leftover" if left is not None else "no-leftover"]})
     # ---- real subprocesses: strace cross-check of the tap, hard kill
     rng = ctx.sub("strace")
     for k in range(6 if ctx.thorough else 2):
